@@ -50,6 +50,14 @@ def scenarios(tier, rng):
             out.append(base_scenario(f"{kind}-{pname}-{j}-f{freq}m{keep}{'a' if isasync else 's'}-" +
                                      "_".join(f"{a}{str(b).strip('@')}" for a, b in sorted(kw.items())),
                                      kind, pname, pspec, full, freq, keep, isasync, [g1, g2]))
+    # "latest" must be the numerically latest step (9 < 10 < 11, 99 < 100)
+    for kind, pname in (("VI", "forest"), ("PVI", "forest12"), ("VI", "tabular")):
+        pspec, full = P[pname]
+        for k1 in (10, 11):
+            out.append(base_scenario(f"{kind}-{pname}-latest-of-{k1 - 1}-{k1}", kind, pname, pspec, full, 1, 2, False,
+                                     [{"ops": [{"op": "new"}, {"op": "solve", "k": k1}, {"op": "wait"}, {"op": "list", "dir": "@A"}]},
+                                      {"ops": [{"op": "list", "dir": "@A"}, restore_op(full), {"op": "solve", "k": 1},
+                                               {"op": "wait"}, {"op": "list", "dir": "@A"}]}]))
     # error paths
     pspec, full = P["tabular"]
     out.append(base_scenario("VI-tabular-restore-without-config", "VI", "tabular", pspec, False, 1, 2, False,
